@@ -36,7 +36,7 @@ ASSUMPTIONS = ["ordering is observed through the scheduler's own pretask/posttas
                "dask.dataframe runs on the harness pyarrow import stub"]
 BUDGET = {"quick": 40, "thorough": 400}
 FLOORS = {"quick": {"evaluations": 1200, "distinct_nontrivial": 600,
-                    "counters": {"clone_calls": 250, "bind_calls": 250, "wait_on_calls": 200, "checkpoint_calls": 200,
+                    "counters": {"clone_calls": 250, "bind_calls": 250, "bind_with_omitted_base": 30, "wait_on_calls": 200, "checkpoint_calls": 200,
                                  "ordering_edges_checked": 1800, "values_compared": 700}},
           "thorough": {"evaluations": 15000, "distinct_nontrivial": 8000, "counters": {"ordering_edges_checked": 40000}}}
 EXHAUSTIVE_SPACE = None
@@ -251,6 +251,21 @@ def run_case(case, ctx):
             children, parents = colls[:1], colls[1:]
             cref = refs[:1]
             omit = [parents[0]] if case["omit"] else None
+            base_keys = set()
+            if case["omit"] and case["seed"] % 2 and kinds[0] in ("array", "bag", "delayed"):
+                # the meaningful use of omit=: the child is derived from a base collection that must not be regenerated;
+                # the tasks of the child above the base are regenerated and have to wait for the parents
+                base, bref, k0 = children[0], cref[0], kinds[0]
+                if k0 == "array":
+                    ch, chref = (base + 10).rechunk(tuple(max(1, sum(c)) for c in base.chunks)) if case["seed"] % 4 == 1 else base + 10, bref + 10
+                elif k0 == "bag":
+                    ch, chref = base.map(_inc), [v + 1 for v in bref]
+                else:
+                    ch, chref = dask.delayed(_add)(base, 5), bref + 5
+                children, cref, omit = [ch], [chref], base
+                base_keys = set(base.__dask_graph__())
+                feat = "bind:child=%s:omit-base-of-child%s" % (k0, "" if case["assume_layers"] else "&assume_layers=False")
+                ctx.count("bind_with_omitted_base")
             out = gm.bind(children[0], parents, omit=omit, seed=case["cseed"], assume_layers=case["assume_layers"],
                           split_every=case["split_every"])
             vals, events = _run_logged([out], threads)
@@ -263,6 +278,9 @@ def run_case(case, ctx):
             pkeys = set().union(*[_keys(p) for p in parents])
             orig_child_keys = set(children[0].__dask_graph__())
             parent_graph_keys = set().union(*[set(p.__dask_graph__()) for p in parents])
+            if base_keys:
+                # with the base omitted, the regenerated tasks are the executed ones outside the base and the parents
+                orig_child_keys = base_keys
             regenerated = [k for k in pre if k not in orig_child_keys and k not in parent_graph_keys
                            and not str(k if not isinstance(k, tuple) else k[0]).startswith("checkpoint")]
             for k in _data_keys(parents) & pkeys:
@@ -272,6 +290,9 @@ def run_case(case, ctx):
                 ctx.violation(feat + ":parent-not-computed", "parent output keys never finished: %r" % (missing[:3],))
                 return
             last_parent = max(post[k] for k in pkeys)
+            if base_keys and not regenerated:
+                ctx.violation(feat + ":no-regenerated-child-task-ran", "no task of the child above the omitted base was executed")
+                return
             for k in regenerated:
                 ctx.count("ordering_edges_checked")
                 if pre[k] < last_parent:
@@ -331,6 +352,11 @@ def run_case(case, ctx):
         ctx.unsupported(str(ex))
         return
     except Exception as ex:  # noqa: BLE001
+        if feat.startswith("bind:child=array:omit-base-of-child&assume_layers=False"):
+            # one mechanism (the key-level algorithm drops the omitted base's keys from the regenerated blockwise
+            # layer), surfacing as "Missing dependency" ValueError or, on some graphs, a TypeError at compute
+            ctx.violation(feat + ":raises", "%s: %s" % (type(ex).__name__, str(ex)[:300]))
+            return
         ctx.exception(ex, prefix=feat)
         return
     ctx.sample = {"op": op, "kinds": kinds, "threads": threads}
